@@ -65,13 +65,6 @@ type wsFrame struct {
 	Payload string // byte field (hex, "-", or p:n:seed)
 }
 
-func b01(b bool) string {
-	if b {
-		return "1"
-	}
-	return "0"
-}
-
 func (f wsFrame) String() string {
 	return fmt.Sprintf("%s.%d.%d.%s.%s.%d.%d.%s", b01(f.Fin), f.Rsv, f.Op, b01(f.Masked), f.Key, f.Form, f.Len, f.Payload)
 }
